@@ -6,12 +6,14 @@
    Output: ctcodec_cases.ndjson (one JSON record per case) next to the spec.              *)
 EXTENDS CTCodec, Json, SequencesExt
 
+CONSTANT Extra      \* further length classes for the 16-bit fields (thorough tier)
+
 TS0 == <<0, 0, 0, 0, 0, 0, 0, 0>>
 TSM == <<255, 255, 255, 255, 255, 255, 255, 255>>
 TS1 == <<1, 2, 3, 4, 5, 6, 7, 200>>
 
-ExtClasses  == {0, 1, Max16, Max16 + 1}
-SigClasses  == {0, 1, 72, Max16, Max16 + 1, 70000}
+ExtClasses  == {0, 1, Max16, Max16 + 1} \cup Extra
+SigClasses  == {0, 1, 72, Max16, Max16 + 1, 70000} \cup Extra
 CertClasses == {0, 1, 1000, Max24, Max24 + 1}
 
 Want(lay) == [ok |-> lay.ok, cs |-> lay.cs, len |-> IF lay.ok THEN ChunksLen(lay.cs) ELSE -1]
